@@ -202,6 +202,12 @@ def projection_rule(rep, prog):
                 fields.append(some(FloatVal(64, term=("sym", "custom_lat"))) if custom else NONE)
             elif n == "custom_long":
                 fields.append(some(FloatVal(64, term=("sym", "custom_long"))) if custom else NONE)
+            elif isinstance(f["ty"], dict) and f["ty"].get("k") == "adt" and f["ty"]["path"] in prog.adts and prog.adts[f["ty"]["path"]]["kind"] == "struct":
+                # nested settings (the command line options): their float fields are named symbols too, so that a formula that
+                # uses one of them instead of the live receiver position can be shown
+                sub = prog.adts[f["ty"]["path"]]
+                fields.append(AdtVal(f["ty"]["path"], 0, [FloatVal(g["ty"]["bits"], term=("sym", "%s.%s" % (n, g["name"]))) if isinstance(g["ty"], dict) and g["ty"].get("k") == "float"
+                                                          else top_of(g["ty"]) for g in sub["variants"][0]["fields"]], vname=sub["variants"][0]["name"]))
             else:
                 fields.append(top_of(f["ty"]))
         sref = RefVal(st.new_heap(AdtVal("radar::Settings", 0, fields, vname="Settings")), False)
